@@ -168,11 +168,14 @@ pub fn corpus(seed: u64, big: bool) -> Vec<Seed> {
         // every third fragmented subject carries 64-bit mdat headers (a largesize field for the
         // mutators on the fragment path)
         let large_mdat = i % 3 == 1;
+        // every fourth one has track fragments with two runs whose optional columns differ
+        crate::model::allow_multi_trun(i % 4 == 3);
         let b = build_fragmented_x(&fm, &|_| {}, &|bx| {
             if large_mdat && &bx.typ == b"mdat" {
                 bx.large = true;
             }
         });
+        crate::model::allow_multi_trun(false);
         let init = b.init.clone();
         v.push(seed_from_ser(&format!("frag{}", i), b.whole, None));
         if i % 2 == 0 || large_mdat {
@@ -513,12 +516,22 @@ pub fn mutate_havoc(seed: &Seed, others: &[Seed], rng: &mut Rng) -> (Vec<u8>, Mu
 // amplifier families (C07): a hostile structure replicated k times
 // ---------------------------------------------------------------------------------------
 
-pub const AMPLIFIERS: [&str; 19] = [
+pub const AMPLIFIERS: [&str; 20] = [
     "many_stsd_huge_entry_count", "many_containers_with_tiny_child", "many_traks_many_moofs", "many_stsd_esds_overrun", "many_trafs_long_run",
     "zero_size_child_in_moov", "zero_size_child_in_trak", "zero_size_child_in_stbl", "zero_size_child_in_udta", "zero_size_child_in_moof",
     "tiny_boxes_top", "tiny_children_in_moov", "many_traks_overlapping_avcc", "many_traks_overlapping_hvcc", "count_max_no_payload",
-    "trun_count_max_no_fields", "nested_overrun_chain", "many_meta_rewind", "emsg_many",
+    "trun_count_max_no_fields", "nested_overrun_chain", "many_meta_rewind", "emsg_many", "many_moofs_one_sample_each",
 ];
+
+/// Families whose hostile cost is pure CPU work of a later call (no stream operations) and
+/// only rises above the timing noise floor on larger inputs: their targets are multiplied.
+pub fn amplifier_scale(family: &str) -> usize {
+    if family == "many_moofs_one_sample_each" {
+        16
+    } else {
+        1
+    }
+}
 
 fn base_trak(rng: &mut Rng, id: u32, codec: Codec) -> MTrack {
     let mut t = gen_track(rng, id, 2, 8, 1);
@@ -668,7 +681,9 @@ pub fn amplifier(family: &str, target: usize, rng: &mut Rng) -> Vec<u8> {
                 // every second run has a fragment-level default sample size and duration (so that
                 // "no per-sample size" is a complete description of its samples)
                 // (the first run is the one every large sample id resolves to: it has the defaults)
-                let dflt = if j % 2 == 0 { Some(3) } else { None };
+                // (every fourth one has the defaults 0: a guard of the form "count x default size
+                // fits in the input" says nothing about a table of `count` entries then)
+                let dflt = if j % 4 == 2 { Some(0) } else if j % 2 == 0 { Some(3) } else { None };
                 traf.push(refenc::enc_tfhd(&refenc::TfhdF { track_id: 1, default_size: dflt, default_duration: dflt, ..Default::default() }));
                 let mut tr = refenc::enc_trun(&refenc::TrunF { count: 0, ..Default::default() });
                 if let Some(Part::Data(pb)) = tr.parts.first_mut() {
@@ -811,6 +826,24 @@ pub fn amplifier(family: &str, target: usize, rng: &mut Rng) -> Vec<u8> {
                 moof.push(refenc::enc_mfhd(0, 0, i as u32 + 1));
                 let mut traf = BoxT::new(b"traf");
                 traf.push(refenc::enc_tfhd(&refenc::TfhdF { track_id: 1, ..Default::default() }));
+                moof.push(traf);
+                top.push(moof);
+            }
+        }
+        "many_moofs_one_sample_each" => {
+            // m movie fragments, each with one track fragment holding one empty sample and NO
+            // decode-time box (it is optional): every count and size is honest and tiny, but a
+            // lookup that derives the time or position of a late sample by walking the earlier
+            // samples, and finds each of them by walking the fragments, costs m x m.
+            let m = (target / 72).max(2);
+            top.push(ftyp);
+            top.push(build_moov(&movie, &offsets, Some(vec![refenc::TrexF { track_id: 1, desc_index: 1, duration: 1, ..Default::default() }])));
+            for i in 0..m {
+                let mut moof = BoxT::new(b"moof");
+                moof.push(refenc::enc_mfhd(0, 0, i as u32 + 1));
+                let mut traf = BoxT::new(b"traf");
+                traf.push(refenc::enc_tfhd(&refenc::TfhdF { track_id: 1, extra_flags: 0x020000, ..Default::default() }));
+                traf.push(refenc::enc_trun(&refenc::TrunF { count: 1, data_offset: Some(0), sizes: Some(vec![0]), ..Default::default() }));
                 moof.push(traf);
                 top.push(moof);
             }
